@@ -237,6 +237,13 @@ func (e *Exec) Verify() (obls []*Obligation, err error) {
 			env.polarity = polAssume
 			e.ctx.assume(env.evalBool(cl.Expr))
 		}
+		// rely: a data-structure invariant assumed on entry and not checked at call sites; it is
+		// listed among the unchecked assumptions of every property the function belongs to
+		for _, cl := range e.fc.Relies {
+			env.polarity = polAssume
+			e.ctx.assume(env.evalBool(cl.Expr))
+			e.ctx.assumes["rely (assumed invariant, not checked at call sites) in "+shortKey(e.topName)+": "+cl.Text]++
+		}
 		for _, x := range e.extraRequires {
 			env.polarity = polAssume
 			e.ctx.assume(env.evalBool(x))
